@@ -40,6 +40,7 @@ pub fn run(ctx: &Ctx, args: &[String]) -> i32 {
         "gen-corpus" => c04::gen_corpus(ctx, args),
         "memprobe" => c04::memprobe(ctx, args),
         "memprobe-max" => c04::memprobe_max(ctx, args),
+        "gen-decl32-sample" => c04::gen_decl32_sample(ctx, args),
         "gen-hostile-sample" => c04::gen_hostile_sample(ctx, args),
         "C17" => c03::run_c17(ctx),
         "selfcheck" => selfcheck(ctx),
